@@ -1312,7 +1312,7 @@ func (gen *c12Gen) byteCase(g *Rng) c12Case {
 // c12Shrink tries to make a failing case smaller while its class stays the same.
 // Bounded: at most maxTries executions (hangs are expensive: their budget is smaller).
 func c12Shrink(c c12Case, res c12Result) (c12Case, c12Result, int) {
-	maxTries := 160
+	maxTries := 240
 	to := 0
 	if res.Outcome == "hang" || res.Outcome == "mem" {
 		maxTries = 12
@@ -1357,6 +1357,27 @@ func c12Shrink(c c12Case, res c12Result) (c12Case, c12Result, int) {
 		}
 		return cur, curRes, steps
 	}
+	// whole files first (unreferenced leftovers, then anything the failure does not need)
+	{
+		names := make([]string, 0, len(cur.Files))
+		for pth := range cur.Files {
+			names = append(names, pth)
+		}
+		sort.Strings(names)
+		for _, pth := range names {
+			if tries >= maxTries/3 {
+				break
+			}
+			cand := cur
+			cand.Files = map[string]blob{}
+			for k, v := range cur.Files {
+				if k != pth {
+					cand.Files[k] = v
+				}
+			}
+			try(cand)
+		}
+	}
 	// structural deletion inside every YAML file, biggest subtrees first (directives, documents, fields)
 	paths := make([]string, 0, len(cur.Files))
 	for pth := range cur.Files {
@@ -1367,6 +1388,9 @@ func c12Shrink(c c12Case, res c12Result) (c12Case, c12Result, int) {
 		progress := false
 		for _, pth := range paths {
 			if !(strings.HasSuffix(pth, ".yaml")) {
+				continue
+			}
+			if _, present := cur.Files[pth]; !present {
 				continue
 			}
 			docs, err := decodeDocs(cur.Files[pth])
